@@ -141,21 +141,24 @@ impl<D: DependencyProvider> SolverCache<D> {
                     return Err(value);
                 }
 
-                // Check if there is an in-flight request
-                let in_flight_request = self
-                    .package_name_to_candidates_in_flight
-                    .borrow()
-                    .get(&package_name)
-                    .cloned();
-                match in_flight_request {
-                    Some(in_flight) => {
-                        // Found an in-flight request, wait for that request to finish and return
-                        // the computed result.
-                        in_flight.listen().await;
-                        self.package_name_to_candidates
-                            .get_copy(&package_name)
-                            .expect("after waiting for a request the result should be available")
-                    }
+                // If there is an in-flight request, wait for that request to finish.
+                loop {
+                    let in_flight_request = self
+                        .package_name_to_candidates_in_flight
+                        .borrow()
+                        .get(&package_name)
+                        .cloned();
+                    let Some(in_flight) = in_flight_request else {
+                        break;
+                    };
+                    in_flight.listen().await;
+                }
+
+                match self.package_name_to_candidates.get_copy(&package_name) {
+                    // The request we waited for has stored its result.
+                    Some(id) => id,
+                    // There was no request in flight, or the caller that made it was dropped
+                    // before it completed: this caller makes the request.
                     None => {
                         // Prepare an in-flight notifier for other requests coming in. The
                         // guard removes it again (and wakes any waiters) when the result
